@@ -17,7 +17,7 @@ func init() {
 			Property: "C15",
 			Rule: "B: every string of length <=6 (quick) / 7 (thorough) over the byte alphabet { [ ] / = \" \\ space a 1 . : 0xC3 0xA9 0xFF }; T: every assembly of <=4 (quick) / 5 (thorough) tokens from a vocabulary of marker fragments " +
 				"([a, ], [/a], [/], /], =1, =1., =\"x, \", [select value=, [nomarkup], [/nomarkup], trimwhitespace=1, whitespace, multi-byte text, a character prefix ...); " +
-				"each parsed by a fresh LineParser; oracle: returns (no panic; hangs are caught by the worker watchdog), every attribute has 0<=Position, 0<=Length, Position+Length<=characters(Text), and TextForAttribute of every returned attribute does not panic; " +
+				"N: every assembly of <=5 (quick) / 6 (thorough) items from nomarkup blocks holding fragments of multi-byte characters, markers and text; each parsed by a fresh LineParser; H: every sequence of 2-3 lines of the C14 line alphabet (incl. refused lines) parsed by one reused LineParser; oracle: returns (no panic; hangs are caught by the worker watchdog), every attribute has 0<=Position, 0<=Length, Position+Length<=characters(Text), and TextForAttribute of every returned attribute does not panic; " +
 				"a case is one string; non-trivial = contains a '['",
 			StatesMean:  "distinct input strings; transitions = ParseMarkup + TextForAttribute calls",
 			Assumptions: []string{"strings beyond the length bound / outside the alphabets are not explored"},
@@ -30,6 +30,10 @@ func init() {
 // safeParse parses s with a fresh parser and checks the safety conditions; "" means fine.
 func safeParse(s string) (clause, detail string, res *markup.ParseResult, err error) {
 	var lp markup.LineParser
+	return safeParseWith(&lp, s)
+}
+
+func safeParseWith(lp *markup.LineParser, s string) (clause, detail string, res *markup.ParseResult, err error) {
 	if p := guard(func() { res, err = lp.ParseMarkup(s) }); p != nil {
 		return "markup-panic", fmt.Sprintf("ParseMarkup panicked: %v", p), nil, nil
 	}
@@ -95,6 +99,51 @@ func runC15(ctx *report.Ctx) {
 			return
 		}
 		c15Case(ctx, c, "B", string(buf))
+	})
+	// N: nomarkup blocks copy raw bytes: fragments of multi-byte characters in several blocks
+	nItems := []string{"[nomarkup]\xe2\x82[/nomarkup]", "[nomarkup]\xac[/nomarkup]", "[nomarkup]\xc3[/nomarkup]", "[nomarkup]\xa9[/nomarkup]", "[nomarkup]é[/nomarkup]", "[nomarkup]\xf0\x9f[/nomarkup]", "[nomarkup]\x98\x80[/nomarkup]",
+		"[a]", "[/a]", "[/]", "[b/]", "x", "\xc3", " ", "é"}
+	maxN := report.Pick(ctx, 5, 6)
+	part(ctx, "N", -1, func(c *explore.Chooser) {
+		n := 1 + c.Choose(maxN, "len")
+		var b strings.Builder
+		for i := 0; i < n; i++ {
+			b.WriteString(nItems[c.Choose(len(nItems), "item")])
+			if i == 1 || (n == 1 && i == 0) {
+				if !c.Mine() {
+					return
+				}
+			}
+		}
+		c15Case(ctx, c, "N", b.String())
+	})
+	// H: a reused parser: every sequence of <=3 lines of the C14 line alphabet on one LineParser value;
+	// every result must be safe to use whatever was parsed (or refused) before
+	hlines := c14Lines()
+	part(ctx, "H", -1, func(c *explore.Chooser) {
+		n := 2 + c.Choose(2, "len")
+		var seq []string
+		for i := 0; i < n; i++ {
+			seq = append(seq, hlines[c.Choose(len(hlines), "line")])
+			if i == 0 {
+				if !c.Mine() {
+					return
+				}
+			}
+		}
+		ctx.Current(fmt.Sprintf("H: %q", seq))
+		var lp markup.LineParser
+		for i, l := range seq {
+			clause, detail, _, _ := safeParseWith(&lp, l)
+			ctx.AddTransitions(1)
+			if clause != "" {
+				ctx.Violation(report.Violation{Clause: clause + "-reused-parser", Witness: fmt.Sprintf("markup sequence %q", seq[:i+1]), Detail: "on a LineParser that has parsed the preceding lines: " + detail, Choices: c.Choices(), Part: "H"})
+				break
+			}
+		}
+		ctx.AddEvals(1, 1)
+		ctx.AddStates(1)
+		ctx.AddTraces(1)
 	})
 	maxTok := report.Pick(ctx, 4, 5)
 	ctx.Bound("token_assembly_length", maxTok)
